@@ -7,6 +7,7 @@
     --(checksField_sound below)-->  no block of the walk is validated
     --(searchPaths_complete)-->  the path is reported.
 -/
+import TealerModel.Props.TieFlow
 import TealerModel.Lemmas.Dfs
 import TealerModel.Props.Common
 import TealerModel.Lemmas.Asserted
@@ -279,5 +280,32 @@ example : OperandValues.BlockRun sampleBlock sampleEnv sampleBlock 0 4 sampleSta
     rcases this with rfl | rfl | rfl | rfl <;> simp [sampleBlock]
 
 example : checksField .feeCheck { maxFee := 1000 } = true ∧ checksField .feeCheck {} = false := by decide
+
+/-- THE BLOCK-LEVEL AND EDGE CONSTRAINTS ARE THE PYTHON'S.  `_block_level_constraints` (assert / return / err, the
+    `int 0; return` case) and `_path_level_constraints` (which edge of a bz / bnz gets which side, the branch to the next
+    instruction), translated statement by statement from /repo's Python on this run for one analysis key, compute exactly the
+    model's `blockConstraint` and `pathConstraint`, for every analysis, key, block and successor -/
+theorem C01_tie_constraints {D : Type} [DecidableEq D] (A : Analysis D) (intcs : Option (List Nat)) (b : FBlock) (key : Key) (n : Nat) :
+    blockConstraint A intcs b key =
+        Generated.blockLevelConstraints (TieM.envOf intcs) A.dom (A.univ key.base)
+          (TieF.gaOf A intcs (constructAst b.ins) key (b.ins.length + 1)) (TieM.envOf intcs) key (TieF.fblockView b n) ∧
+      ∀ (nextGlobal : List Nat) (succ : Nat), succ ∈ nextGlobal → b.next ≠ [] →
+        Generated.pathLevelConstraints (TieM.envOf intcs) A.dom (A.univ key.base)
+            (TieF.gaOf A intcs (constructAst b.ins) key (b.ins.length + 1)) (TieM.envOf intcs) key (TieF.predView b nextGlobal n) succ =
+          some (pathConstraint A intcs b succ key) :=
+  ⟨TieF.block_tie A intcs b key n, fun ng succ hs hne => TieF.path_tie A intcs b key n ng succ hs hne⟩
+
+/-- THE TRANSFER FUNCTIONS ARE THE PYTHON'S.  `_calculate_reachin` (union over the global predecessors of reach-out ∩ edge
+    constraint, intersected with the call site's reach-out at a return point) and `_calculate_livein` (union over the global
+    successors, intersected with the return point's live-out at a call site whose callee returns), translated from /repo's
+    Python on this run, are the equations `fwdF` / `bwdF` the solver theorems are about -/
+theorem C01_tie_transfer_functions {D : Type} [DecidableEq D] (A : Analysis D) (g : Graph) (univ : D) (bc : Nat → D) (pc : Nat → Nat → D)
+    (cur : List (Nat × D)) (b : Nat) (E : PyView.Env) (key : Key) :
+    fwdF A g univ bc pc cur b =
+        A.dom.inter (Generated.calculateReachin A.dom univ (pc b) E key (TieF.graphBlock g b) (fun k => getMap cur k A.dom.null)) (bc b) ∧
+      bwdF A g bc cur b =
+        (if g.isLeaf b then getMap cur b A.dom.null
+         else A.dom.inter (Generated.calculateLivein A.dom univ E key (TieF.graphBlock g b) (fun k => getMap cur k A.dom.null)) (bc b)) :=
+  ⟨TieF.reachin_tie A g univ bc pc cur b E key, TieF.livein_tie A g univ bc cur b E key⟩
 
 end Tealer.C01
